@@ -15177,3 +15177,297 @@ let q_eq a b =
   match qcompare a b with
   | Eq -> true
   | _ -> false
+
+(** val key : char list -> char list * char list **)
+
+let key k =
+  ((append ('"'::[]) (append k ('"'::[]))), k)
+
+(** val member : char list -> jv -> (char list * char list) * jv **)
+
+let member k v =
+  ((key k), v)
+
+(** val jbool : bool -> jv **)
+
+let jbool = function
+| true -> JTrue
+| false -> JFalse
+
+(** val jnum : oracle2 -> z -> jv **)
+
+let jnum o2 f =
+  JNum (match o2.json_num f with
+        | Some t -> t
+        | None -> [])
+
+(** val jstr : oracle2 -> char list -> jv **)
+
+let jstr o2 s =
+  JStr ((o2.json_str s), s)
+
+(** val cst_e : oracle2 -> expr -> jv **)
+
+let cst_e o2 =
+  let rec cst_e0 = function
+  | E (l, op, r, boost, fuzzy) ->
+    if is_leaf op
+    then cst_v l
+    else JObj
+           (app
+             ((member ('l'::('e'::('f'::('t'::[])))) (cst_v l)) :: ((member
+                                                                    ('o'::('p'::('e'::('r'::('a'::('t'::('o'::('r'::[]))))))))
+                                                                    (JStr
+                                                                    ((append
+                                                                    ('"'::[])
+                                                                    (append
+                                                                    (op_string
+                                                                    op)
+                                                                    ('"'::[]))),
+                                                                    (op_string
+                                                                    op)))) :: []))
+             (app
+               (match r with
+                | VNil -> []
+                | _ ->
+                  (member ('r'::('i'::('g'::('h'::('t'::[]))))) (cst_v r)) :: [])
+               (app
+                 (if Z.eqb fuzzy (Zpos XH)
+                  then []
+                  else (member
+                         ('d'::('i'::('s'::('t'::('a'::('n'::('c'::('e'::[]))))))))
+                         (JNum (z_to_string fuzzy))) :: [])
+                 (if Z.eqb boost one_bits
+                  then []
+                  else (member ('p'::('o'::('w'::('e'::('r'::[])))))
+                         (jnum o2 boost)) :: []))))
+  and cst_v = function
+  | VNil -> JNull
+  | VInt z0 -> JNum (z_to_string z0)
+  | VFloat f -> jnum o2 f
+  | VStr s -> jstr o2 s
+  | VBool b -> jbool b
+  | VCol s -> jstr o2 s
+  | VExp e -> cst_e0 e
+  | VList l ->
+    JArr
+      (let rec each = function
+       | [] -> []
+       | x :: rest0 -> (cst_e0 x) :: (each rest0)
+       in each l)
+  | VBound (mn, mx, incl) ->
+    JObj
+      ((member ('m'::('i'::('n'::[]))) (cst_v mn)) :: ((member
+                                                         ('m'::('a'::('x'::[])))
+                                                         (cst_v mx)) :: (
+      (member
+        ('i'::('n'::('c'::('l'::('u'::('s'::('i'::('v'::('e'::[])))))))))
+        (jbool incl)) :: [])))
+  in cst_e0
+
+(** val z_opt_eqb : z option -> z -> bool **)
+
+let z_opt_eqb a b =
+  match a with
+  | Some x -> Z.eqb x b
+  | None -> false
+
+(** val float_ok_b : oracle -> oracle2 -> z -> bool **)
+
+let float_ok_b o o2 f =
+  match o2.json_num f with
+  | Some t ->
+    (&&)
+      ((&&) (match atoi t with
+             | Some _ -> false
+             | None -> true) (z_opt_eqb (o.parse_float t) f))
+      (negb (o.is_nan_or_inf f))
+  | None -> false
+
+(** val power_ok_b : oracle -> oracle2 -> z -> bool **)
+
+let power_ok_b o o2 f =
+  match o2.json_num f with
+  | Some t -> (&&) (z_opt_eqb (o.parse_float t) f) (negb (o.is_nan_or_inf f))
+  | None -> false
+
+(** val int_ok_b : z -> bool **)
+
+let int_ok_b z0 =
+  (&&)
+    (Z.leb (Zneg (XO (XO (XO (XO (XO (XO (XO (XO (XO (XO (XO (XO (XO (XO (XO
+      (XO (XO (XO (XO (XO (XO (XO (XO (XO (XO (XO (XO (XO (XO (XO (XO (XO (XO
+      (XO (XO (XO (XO (XO (XO (XO (XO (XO (XO (XO (XO (XO (XO (XO (XO (XO (XO
+      (XO (XO (XO (XO (XO (XO (XO (XO (XO (XO (XO (XO
+      XH)))))))))))))))))))))))))))))))))))))))))))))))))))))))))))))))) z0)
+    (Z.leb z0 (Zpos (XI (XI (XI (XI (XI (XI (XI (XI (XI (XI (XI (XI (XI (XI
+      (XI (XI (XI (XI (XI (XI (XI (XI (XI (XI (XI (XI (XI (XI (XI (XI (XI (XI
+      (XI (XI (XI (XI (XI (XI (XI (XI (XI (XI (XI (XI (XI (XI (XI (XI (XI (XI
+      (XI (XI (XI (XI (XI (XI (XI (XI (XI (XI (XI (XI
+      XH))))))))))))))))))))))))))))))))))))))))))))))))))))))))))))))))
+
+(** val dflt : z -> z -> bool **)
+
+let dflt b fz =
+  (&&) (Z.eqb b one_bits) (Z.eqb fz (Zpos XH))
+
+(** val leaf_rt_b : oracle -> oracle2 -> expr -> bool **)
+
+let leaf_rt_b o o2 = function
+| E (left, op, right, b, fz) ->
+  (match left with
+   | VInt z0 ->
+     (match op with
+      | Literal ->
+        (match right with
+         | VNil -> (&&) (int_ok_b z0) (dflt b fz)
+         | _ -> false)
+      | _ -> false)
+   | VFloat f ->
+     (match op with
+      | Literal ->
+        (match right with
+         | VNil -> (&&) (float_ok_b o o2 f) (dflt b fz)
+         | _ -> false)
+      | _ -> false)
+   | VStr s ->
+     (match right with
+      | VNil -> (&&) (op_eqb (e_op (literal_to_expr (VStr s))) op) (dflt b fz)
+      | _ -> false)
+   | _ -> false)
+
+(** val field_rt_b : oracle -> oracle2 -> expr -> bool **)
+
+let field_rt_b o o2 = function
+| E (left, op, right, b, fz) ->
+  (match left with
+   | VInt z0 ->
+     (match op with
+      | Literal ->
+        (match right with
+         | VNil -> (&&) (int_ok_b z0) (dflt b fz)
+         | _ -> false)
+      | _ -> false)
+   | VFloat f ->
+     (match op with
+      | Literal ->
+        (match right with
+         | VNil -> (&&) (float_ok_b o o2 f) (dflt b fz)
+         | _ -> false)
+      | _ -> false)
+   | VCol _ ->
+     (match op with
+      | Literal -> (match right with
+                    | VNil -> dflt b fz
+                    | _ -> false)
+      | _ -> false)
+   | _ -> false)
+
+(** val ki_b : oracle -> oracle2 -> expr -> bool **)
+
+let rec ki_b o o2 e = match e with
+| E (l, op, r, b, fz) ->
+  (match op with
+   | Undefined -> false
+   | And ->
+     (match l with
+      | VExp a ->
+        (match r with
+         | VExp c -> (&&) ((&&) (ki_b o o2 a) (ki_b o o2 c)) (dflt b fz)
+         | _ -> false)
+      | _ -> false)
+   | Or ->
+     (match l with
+      | VExp a ->
+        (match r with
+         | VExp c -> (&&) ((&&) (ki_b o o2 a) (ki_b o o2 c)) (dflt b fz)
+         | _ -> false)
+      | _ -> false)
+   | Not ->
+     (match l with
+      | VExp a ->
+        (match r with
+         | VNil -> (&&) (ki_b o o2 a) (dflt b fz)
+         | _ -> false)
+      | _ -> false)
+   | Range ->
+     (match l with
+      | VExp f ->
+        (match r with
+         | VBound (mn, mx, _) ->
+           (match mn with
+            | VExp x ->
+              (match mx with
+               | VExp y ->
+                 (&&)
+                   ((&&) ((&&) (field_rt_b o o2 f) (leaf_rt_b o o2 x))
+                     (leaf_rt_b o o2 y)) (dflt b fz)
+               | _ -> false)
+            | _ -> false)
+         | _ -> false)
+      | _ -> false)
+   | Must ->
+     (match l with
+      | VExp a ->
+        (match r with
+         | VNil -> (&&) (ki_b o o2 a) (dflt b fz)
+         | _ -> false)
+      | _ -> false)
+   | MustNot ->
+     (match l with
+      | VExp a ->
+        (match r with
+         | VNil -> (&&) (ki_b o o2 a) (dflt b fz)
+         | _ -> false)
+      | _ -> false)
+   | Boost ->
+     (match l with
+      | VExp a ->
+        (match r with
+         | VNil ->
+           (&&)
+             ((&&) (ki_b o o2 a)
+               ((||) (Z.eqb b one_bits) (power_ok_b o o2 b)))
+             (Z.eqb fz (Zpos XH))
+         | _ -> false)
+      | _ -> false)
+   | Fuzzy ->
+     (match l with
+      | VExp a ->
+        (match r with
+         | VNil -> (&&) ((&&) (ki_b o o2 a) (Z.eqb b one_bits)) (int_ok_b fz)
+         | _ -> false)
+      | _ -> false)
+   | Literal -> leaf_rt_b o o2 e
+   | Wild -> leaf_rt_b o o2 e
+   | Regexp -> leaf_rt_b o o2 e
+   | In ->
+     (match l with
+      | VExp f ->
+        (match r with
+         | VExp e0 ->
+           let E (left, op0, right, b', fz') = e0 in
+           (match left with
+            | VList lits ->
+              (match op0 with
+               | List ->
+                 (match right with
+                  | VNil ->
+                    (&&)
+                      ((&&)
+                        ((&&) (field_rt_b o o2 f)
+                          (forallb (leaf_rt_b o o2) lits)) (dflt b fz))
+                      (dflt b' fz')
+                  | _ -> false)
+               | _ -> false)
+            | _ -> false)
+         | _ -> false)
+      | _ -> false)
+   | List -> false
+   | _ ->
+     (match l with
+      | VExp f ->
+        (match r with
+         | VExp v -> (&&) ((&&) (field_rt_b o o2 f) (ki_b o o2 v)) (dflt b fz)
+         | _ -> false)
+      | _ -> false))
